@@ -47,13 +47,13 @@ def check_dispatch(res, repo):
     fl = repo.method("hexital.core.candle", "Candle", "from_list")
     fl_types = set()
     for c in calls_in(fl.node):
-        if call_name(c) == "isinstance" and len(c.args) == 2 and _is_first_elem(c.args[0]):
+        if call_name(c) == "isinstance" and len(c.args) == 2 and _is_first_elem(c.args[0], fl.node):
             fl_types |= _type_names(c.args[1])
     arm_types = set()
     for n in ast.walk(ap.node):
         if isinstance(n, ast.If):
             t = n.test
-            if isinstance(t, ast.Call) and call_name(t) == "isinstance" and _is_first_elem(t.args[0]) and any(call_target(c) == "Candle.from_list" for st in n.body for c in calls_in(st)):
+            if isinstance(t, ast.Call) and call_name(t) == "isinstance" and _is_first_elem(t.args[0], ap.node) and any(call_target(c) == "Candle.from_list" for st in n.body for c in calls_in(st)):
                 arm_types |= _type_names(t.args[1])
     if fl_types and fl_types <= arm_types | {"float", "int"} and {"float", "int"} <= arm_types:
         res.ok(rule, {"site": ap.where, "from_list first-element types": sorted(fl_types | {"float", "int"}), "dispatch arm accepts": sorted(arm_types)}, nontrivial="dispatch:row-types")
@@ -87,8 +87,14 @@ def check_converters(prop, res, repo, rule="R-DISPATCH"):
             res.fail(rule, finding(prop, rule, m, m.node, "converter no longer builds the candle through one constructor call with six slots", construct=f"{name}: constructor"))
 
 
-def _is_first_elem(node) -> bool:
-    return isinstance(node, ast.Subscript) and isinstance(node.value, ast.Name) and isinstance(node.slice, ast.Constant) and node.slice.value == 0
+def _is_first_elem(node, fn=None) -> bool:
+    if isinstance(node, ast.Subscript) and isinstance(node.value, ast.Name) and isinstance(node.slice, ast.Constant) and node.slice.value == 0:
+        return True
+    # a local holding the first element:  first = rows[0]
+    if isinstance(node, ast.Name) and fn is not None:
+        defs = [n.value for n in ast.walk(fn) if isinstance(n, ast.Assign) and len(n.targets) == 1 and isinstance(n.targets[0], ast.Name) and n.targets[0].id == node.id]
+        return bool(defs) and all(_is_first_elem(d) for d in defs)
+    return False
 
 
 def _type_names(node):
@@ -101,15 +107,18 @@ def _slots_ok(name, ctor: ast.Call, fn=None) -> bool:
     want = ["open", "high", "low", "close", "volume", "timestamp"]
     if name == "from_dict":
         # every key consulted for a slot is that slot's own name (any capitalisation): nothing else may stand in for a price
-        slots = list(ctor.args) + [k.value for k in ctor.keywords]
-        if len(slots) != 6:
+        byname = dict(zip(want, ctor.args))
+        byname.update({k.arg: k.value for k in ctor.keywords if k.arg})
+        if set(byname) != set(want):
             return False
-        for w, a in zip(want, slots):
+        for w in want:
+            a = byname[w]
             keys = [n.value for n in ast.walk(a) if isinstance(n, ast.Constant) and isinstance(n.value, str)]
             if not keys or any(k.lower() != w for k in keys):
                 return False
         return True
-    kws = {k.arg: k.value for k in ctor.keywords}
+    kws = dict(zip(want, ctor.args))
+    kws.update({k.arg: k.value for k in ctor.keywords if k.arg})
     # five positional slots of one row variable ...
     rows = set()
     for i, w in enumerate(want[:5]):
@@ -120,12 +129,28 @@ def _slots_ok(name, ctor: ast.Call, fn=None) -> bool:
     if len(rows) != 1:
         return False
     row = rows.pop()
-    # ... and the timestamp slot is the local that received the popped leading/trailing datetime (None otherwise)
+    # ... and the timestamp slot is the local that received the leading/trailing datetime taken off the row (None otherwise)
     ts = kws.get("timestamp")
     if not isinstance(ts, ast.Name) or fn is None:
         return False
-    srcs = [ast.unparse(n.value).replace(" ", "") for n in ast.walk(fn) if isinstance(n, ast.Assign) and any(isinstance(t, ast.Name) and t.id == ts.id for t in n.targets)]
-    return bool(srcs) and set(srcs) <= {"None", f"{row}.pop(0)", f"{row}.pop(-1)", f"{row}.pop()"} and any(x.startswith(row) for x in srcs)
+
+    def defs(name):
+        return [n.value for n in ast.walk(fn) if isinstance(n, ast.Assign) and any(isinstance(t, ast.Name) and t.id == name for t in n.targets)]
+
+    def end_elem(e) -> bool:
+        """<list>[0] / <list>[-1] / <list>.pop(0|-1), possibly through one local"""
+        if isinstance(e, ast.Subscript) and isinstance(e.slice, (ast.Constant, ast.UnaryOp)) and ast.unparse(e.slice) in ("0", "-1"):
+            return True
+        if isinstance(e, ast.Call) and isinstance(e.func, ast.Attribute) and e.func.attr == "pop" and [ast.unparse(a) for a in e.args] in (["0"], ["-1"], []):
+            return True
+        if isinstance(e, ast.Name):
+            d = defs(e.id)
+            return bool(d) and all(end_elem(x) for x in d if not isinstance(x, ast.Name))
+        return False
+
+    srcs = defs(ts.id)
+    taken = [x for x in srcs if not (isinstance(x, ast.Constant) and x.value is None)]
+    return bool(taken) and all(end_elem(x) for x in taken)
 
 
 @register("C19")
